@@ -523,6 +523,7 @@ func c02Opts(rng interface{ Intn(int) int }, ci int) seqOpts {
 }
 
 func runC02(c *kit.Ctx) {
+	c02FlvPipeline(c) // FLV through the real depacketiser and muxer (c02_flvpipe.go)
 	kit.InstallHooks()
 	nseq := c.Pick(96, 2400)
 	watch := 10 * time.Second
